@@ -3,6 +3,7 @@ package main
 import (
 	"go/ast"
 	"go/token"
+	"strings"
 )
 
 const (
@@ -120,5 +121,44 @@ func init() {
 		for _, n := range []string{"CloseReasonUnspecified", "CloseReasonUnderdelivery", "CloseReasonDestinationUnavailable", "CloseReasonShareTimeout"} {
 			g.p("def %s : Nat := %s", "c"+n[1:], g.intExpr(g.constExpr(fContractsConst, n)))
 		}
+		// what ContractWatcherBuyer.run does with the process-wide share record of its contract before its loop:
+		// the calls on p.globalHashrate in source order, a deferred one marked
+		wrun := g.methodDecl(fContractBuyer, "ContractWatcherBuyer", "run")
+		var startCalls []string
+		for _, st := range wrun.Body.List {
+			if _, ok := st.(*ast.ForStmt); ok {
+				break
+			}
+			prefix := ""
+			var stmts []ast.Stmt
+			if d, ok := st.(*ast.DeferStmt); ok {
+				prefix = "defer "
+				stmts = []ast.Stmt{&ast.ExprStmt{X: d.Call}}
+			} else {
+				stmts = []ast.Stmt{st}
+			}
+			for _, c := range callNames(stmts, 2) {
+				if strings.HasPrefix(c, "globalHashrate.") {
+					startCalls = append(startCalls, prefix+strings.TrimPrefix(c, "globalHashrate."))
+				}
+			}
+		}
+		g.p("/-- the calls `ContractWatcherBuyer.run` makes on the share record of its contract before its loop, in order -/")
+		g.p("def watcherStartCalls : List String := %s", leanStrList(startCalls))
+		// and in the loop body / anywhere else in the file: who else resets the record
+		var resets []string
+		for _, d := range g.file(fContractBuyer).Decls {
+			fd, ok := d.(*ast.FuncDecl)
+			if !ok || fd.Body == nil {
+				continue
+			}
+			for _, c := range callNames(fd.Body.List, 2) {
+				if c == "globalHashrate.Reset" || c == "globalHashrate.Initialize" {
+					resets = append(resets, fd.Name.Name+":"+strings.TrimPrefix(c, "globalHashrate."))
+				}
+			}
+		}
+		g.p("/-- every place in contract_buyer.go that resets or initialises the record: function:call -/")
+		g.p("def recordWriters : List String := %s", leanStrList(resets))
 	}
 }
